@@ -200,6 +200,9 @@ func Run(seed uint64, index int64, o hx.Opts) *hx.Result {
 	if o.Scenario == "seqenum" {
 		return runSeqEnum(seed, index, o)
 	}
+	if o.Scenario == "pairenum" {
+		return runPairEnum(seed, index, o)
+	}
 	res := &hx.Result{Property: "C17", Index: index, Seed: seed, Extra: map[string]int64{}}
 	en := [rt.NumKinds]bool{}
 	en[rt.KGap], en[rt.KSched] = true, true
